@@ -155,7 +155,7 @@ class C15(Prop):
                 + [gen_special_pair(rng, "filter") for _ in range(8 * ns)])
 
     def search_cases(self, rng, neighbours, rnd):
-        return [gen_pair(rng) for _ in range(100)]
+        return [gen_pair(rng) for _ in range(50)]
 
     def run_impl(self, case):
         return {"a": c14.run_selector(case["a"]), "b": c14.run_selector(case["b"])}
